@@ -244,6 +244,20 @@ func (x *c03ctx) k1desc(owner *ssa.Function, inner []c03atom) string {
 			return n
 		}
 	}
+	// no reviewed entry under owner's own name: owner may have been renamed (settled by shape at flush): the first
+	// name that has the shape of a reviewed entry
+	var shapes []string
+	for k := range c03reviewedK1 {
+		shapes = append(shapes, c03shape(k))
+	}
+	for _, n := range names {
+		sh := c03shape(core.FuncKey(owner) + ": panic when " + n + " <- ")
+		for _, ks := range shapes {
+			if strings.HasPrefix(ks, sh) {
+				return n
+			}
+		}
+	}
 	return names[0]
 }
 
